@@ -73,58 +73,61 @@ def driver_sites(ctx):
     return sites
 
 
-def rule_a(ctx, out):
-    sites = driver_sites(ctx)
+def analyse_site(ctx, f, stmt, var, old_expr, producer):
+    """Returns (list of (cfg node, why) emitted-unverified, number of compare sites, number of emissions)."""
+    cfg = ctx.cfg(f)
+    pnode = cfg.stmt_node(stmt)
+    cmp_nodes = []
+    for n in cfg.nodes:
+        for c in node_calls(n, COMPARE):
+            if len(c.args) >= 2 and same_expr(c.args[0], old_expr) and is_name(c.args[1], var):
+                a = n.ast
+                flag = _bound_from_call(a, c, 0) if isinstance(a, ast.Assign) else None
+                cmp_nodes.append((n, flag))
+    old_name = old_expr.id if isinstance(old_expr, ast.Name) else None
+
+    def neutral(n, _var=var, _old=old_name, _stmt=stmt):
+        a = n.ast
+        # re-binding to the input block (or a fresh optimisation, handled as its own site)
+        if n.kind == "stmt" and isinstance(a, ast.Assign) and len(a.targets) == 1 and is_name(a.targets[0], _var):
+            if _old is not None and is_name(a.value, _old):
+                return True
+        if n.kind == "stmt" and a is not _stmt and _var in node_binds(n) and isinstance(a, ast.Assign) \
+                and isinstance(a.value, ast.Call) and call_name(a.value) in PRODUCERS:
+            return True
+        if n.kind == "iter" and _old is not None and _old in node_binds(n):
+            return True   # next loop iteration: new input block, the old pair is gone
+        return False
+
+    emitted_unverified = []
+    cmp_ids = {n.id for n, _ in cmp_nodes}
+
+    def prod_neutral(n):
+        return n.id in cmp_ids or neutral(n)
+
+    hits = propagate_unverified(cfg, pnode, "\0none", prod_neutral, lambda n, v=var: _emission(n, v))
+    for h in hits:
+        emitted_unverified.append((h, "no comparison with the input block on some path"))
+    for cn, flag in cmp_nodes:
+        if flag is None:
+            emitted_unverified.append((cn, "comparison result is not bound to a name that is tested"))
+            continue
+        hits = propagate_unverified(cfg, cn, flag, neutral, lambda n, v=var: _emission(n, v))
+        for h in hits:
+            emitted_unverified.append((h, f"reachable with `{flag}` false and `{var}` not re-bound to the input block"))
+    n_emit = sum(1 for n in cfg.nodes if _emission(n, var))
+    return emitted_unverified, cmp_nodes, n_emit
+
+
+def check_sites(ctx, out, producers=None):
+    sites = [s for s in driver_sites(ctx) if producers is None or s[4] in producers]
     for f, stmt, var, old_expr, producer in sites:
-        cfg = ctx.cfg(f)
         w = where(f, stmt)
         if var is None:
             out.bad(f"{f.name}:{producer}:unbound-result", "result of the optimizer is not bound to a plain name; "
                     "cannot track it to the emission", w)
             continue
-        pnode = cfg.stmt_node(stmt)
-        # all comparison statements comparing (old_expr, var)
-        cmp_nodes = []
-        for n in cfg.nodes:
-            for c in node_calls(n, COMPARE):
-                if len(c.args) >= 2 and same_expr(c.args[0], old_expr) and is_name(c.args[1], var):
-                    a = n.ast
-                    flag = _bound_from_call(a, c, 0) if isinstance(a, ast.Assign) else None
-                    cmp_nodes.append((n, flag))
-        old_name = old_expr.id if isinstance(old_expr, ast.Name) else None
-
-        def neutral(n, _var=var, _old=old_name, _stmt=stmt):
-            a = n.ast
-            # re-binding to the input block (or a fresh optimisation, handled as its own site)
-            if n.kind == "stmt" and isinstance(a, ast.Assign) and len(a.targets) == 1 and is_name(a.targets[0], _var):
-                if _old is not None and is_name(a.value, _old):
-                    return True
-            if n.kind == "stmt" and a is not _stmt and _var in node_binds(n) and isinstance(a, ast.Assign) \
-                    and isinstance(a.value, ast.Call) and call_name(a.value) in PRODUCERS:
-                return True
-            if n.kind == "iter" and _old is not None and _old in node_binds(n):
-                return True   # next loop iteration: new input block, the old pair is gone
-            return False
-
-        emitted_unverified = []
-        # 1. from the producer: reaching an emission without passing any compare of (old,var)
-        cmp_ids = {n.id for n, _ in cmp_nodes}
-
-        def prod_neutral(n):
-            return n.id in cmp_ids or neutral(n)
-
-        hits = propagate_unverified(cfg, pnode, "\0none", prod_neutral, lambda n, v=var: _emission(n, v))
-        for h in hits:
-            emitted_unverified.append((h, "no comparison with the input block on some path"))
-        # 2. from each compare: reaching an emission while eq may be false
-        for cn, flag in cmp_nodes:
-            if flag is None:
-                emitted_unverified.append((cn, "comparison result is not bound to a name that is tested"))
-                continue
-            hits = propagate_unverified(cfg, cn, flag, neutral, lambda n, v=var: _emission(n, v))
-            for h in hits:
-                emitted_unverified.append((h, f"reachable with `{flag}` false and `{var}` not re-bound to the input block"))
-        n_emit = sum(1 for n in cfg.nodes if _emission(n, var))
+        emitted_unverified, cmp_nodes, n_emit = analyse_site(ctx, f, stmt, var, old_expr, producer)
         if emitted_unverified:
             for h, why in emitted_unverified:
                 out.bad(f"{f.name}:{producer}:emit:{short(h.ast, 50)}",
@@ -133,6 +136,11 @@ def rule_a(ctx, out):
         else:
             out.ok({"function": f.qual, "producer": short(stmt, 70), "compare_sites": len(cmp_nodes),
                     "emissions": n_emit})
+    return sites
+
+
+def rule_a(ctx, out):
+    sites = check_sites(ctx, out)
     out.info["driver_sites"] = len(sites)
 
     # --- the comparison returns a conjunction of all three components --------------
